@@ -32,13 +32,22 @@
                     (first-occurrence indices for kinds 2 / 3). The model of BOTH ends is the model of
                     litep2p's futures: the reference is predicted to be byte-for-byte the same machine on
                     this domain.
+   case (mode 4, a whole message-based session: the real WebRtcDialerState against the real
+                    webrtc_listener_negotiate, every reply of the listener split into its frames
+                    and regrouped into messages):  4 pool proto fallbacks ls gss
+                    (gss = one grouping script per round, see WGroup.v: k > 0 = the next k frames in
+                    one message, 0 = an empty message, exhausted = the rest in one message)
+   trace (mode 4):  1 (0 msg | 1) then per round: the listener's result as in mode 1 (without the
+                    leading 1), k = number of register_response calls, their k codes, and after a
+                    Rejected verdict on a reply of a listener that has not accepted:
+                    (1 0 | 1 1 msg | 1 2) for propose_next_fallback
    case (mode 2, message-based dialer):    2 pool proto fallbacks ops   (op = 0 payload | 1)
    trace (mode 2):  1 (0 msg | 1) then per op: (0 code) for register_response, (1 0|1 msg|2) for
                     propose_next_fallback *)
 From Coq Require Import List NArith Bool.
 From V.common Require Import Wire.
 From V.common Require Protobuf.
-From V.C03 Require Import Model Timed NegOps.
+From V.C03 Require Import Model Timed NegOps WGroup.
 From V.C03 Require Fallback Sub.
 Import ListNotations.
 Open Scope N_scope.
@@ -155,6 +164,51 @@ Fixpoint run_wops (ops : list wop) (proto : name) (fbs : list name) (waiting : b
           | None => [1; 2] ++ run_wops t f fbs' waiting
           end
       end
+  end.
+
+(* ---- mode 4: a whole message-based session under a grouping of every reply (WGroup.v).
+   The listener's channel: `header_received` is false for the first payload only; once it has
+   accepted (substream open) or failed (channel closed) nothing more is negotiated. *)
+Fixpoint run4 (ls : list (N * name)) (fs : list name) (cur : name) (payload : bytes)
+              (hdr waiting : bool) (gss : list (list N)) {struct fs} : list N :=
+  let lr := webrtc_listener ls payload hdr in
+  tl (trace1 lr) ++
+  match lr with
+  | WLErr _ => []
+  | WLAccepted _ reply | WLRejected reply | WLPendingProtocol reply =>
+      let msgs := group (hd [] gss) (split_frames (length reply) reply) in
+      let '(w', rs) := wd_feed cur waiting msgs in
+      (N.of_nat (length rs) :: map wd_code rs) ++
+      match lr, last rs WDNotReady with
+      | (WLRejected _ | WLPendingProtocol _), WDRejected =>
+          match fs with
+          | [] => [1; 0]
+          | f :: fs' =>
+              match propose_msg f false with
+              | Some m => [1; 1] ++ enc_bytes m ++ run4 ls fs' f m true w' (tl gss)
+              | None => [1; 2]
+              end
+          end
+      | _, _ => []
+      end
+  end.
+
+Definition p_case4 : parser (name * list name * list name * list (list N)) :=
+  let* pool := plist p_name in let* pi := pN in let* fi := plist pN in let* li := plist pN in
+  let* gss := plist (plist pN) in
+  match pick pool [pi], pick pool fi, pick pool li with
+  | Some [p], Some fs, Some ls => pret (p, fs, ls, gss)
+  | _, _, _ => pfail
+  end.
+
+Definition run4_case (t : list N) : list N :=
+  match pall p_case4 t with
+  | Some (p, fs, ls, gss) =>
+      match propose_msg p true with
+      | Some m => [1; 0] ++ enc_bytes m ++ run4 (tag_from 0 ls) fs p m false false gss
+      | None => [1; 1]
+      end
+  | None => [0]
   end.
 
 (* ---- mode 6 *)
@@ -279,6 +333,7 @@ Definition run_case (l : list N) : list N :=
   | 6 :: t => run6 l t
   | 7 :: t => run7 t
   | 8 :: t => Sub.run_sub t
+  | 4 :: t => run4_case t
   | _ =>
   match decode_case l with
   | Some (Case0 c) =>
@@ -412,11 +467,34 @@ Definition ok1 (hdr : bool) (ls : list name) (payload : bytes) (tr : list N) : b
   | _ => false
   end.
 
+(* names for which a header + proposal payload fits a frame *)
+Definition wfw_b (p : name) : bool := wf_name p && (len p + 23 <=? MAX_FRAME).
+
 (* message-based dialer: the first message is the header + proposal of the main name; a
    Succeeded / Rejected verdict is only given on a payload that contains the confirmation of
    the CURRENT name / an `na` (bytes trailing the verdict are discarded with a warning); fallbacks are proposed in order, one per request, without
-   header, and `none left` is reported exactly when the list is exhausted *)
-Fixpoint ok2_ops (ops : list wop) (cur : name) (fbs : list name) (tr : list N) : bool :=
+   header, and `none left` is reported exactly when the list is exhausted.
+   GROUND TRUTH for every grouping of a legal answer into messages: `acc` is the concatenation of
+   the payloads registered since the last verdict / proposal while every call answered NotReady
+   (`live`), `hs` = a verdict has been given before (so the header has been seen). As soon as
+   acc ++ payload is exactly [header +] confirmation of the current (well-formed) name the call
+   MUST answer Succeeded, on [header +] na it MUST answer Rejected, on the header alone (or on an
+   empty message after it) it MUST answer NotReady - however the frames were spread over the calls.
+   A propose_next_fallback in the middle of an answer (something registered, no verdict yet) is
+   not a conversation with a legal listener: nothing is demanded from then on. *)
+Definition ok2_expect (live hs : bool) (cur : name) (acc' : bytes) : option N :=
+  if live && wfw_b cur then
+    let h := if hs then [] else wpart MHeader in
+    if bytes_eqb acc' (h ++ wpart (MProto cur)) then Some 1
+    else if bytes_eqb acc' (h ++ wpart MNa) then Some 2
+    else if negb hs && bytes_eqb acc' (wpart MHeader) then Some 0
+    else if hs && bytes_eqb acc' [] then Some 0
+    else None
+  else None.
+
+Definition is_nil (b : bytes) : bool := match b with [] => true | _ => false end.
+Fixpoint ok2_ops (ops : list wop) (cur : name) (fbs : list name) (live hs : bool) (acc : bytes)
+                 (tr : list N) : bool :=
   match ops with
   | [] => match tr with [] => true | _ => false end
   | WReg pl :: t =>
@@ -424,19 +502,22 @@ Fixpoint ok2_ops (ops : list wop) (cur : name) (fbs : list name) (tr : list N) :
       | 0 :: code :: tr' =>
           (if code =? 1 then occurs (wpart (MProto cur)) pl
            else if code =? 2 then occurs (wpart MNa) pl else true) &&
-          ok2_ops t cur fbs tr'
+          match ok2_expect live hs cur (acc ++ pl) with Some e => code =? e | None => true end &&
+          (if code =? 0 then ok2_ops t cur fbs live hs (acc ++ pl) tr'
+           else if code =? 2 then ok2_ops t cur fbs live true [] tr'
+           else ok2_ops t cur fbs false hs [] tr')
       | _ => false
       end
   | WNext :: t =>
       match fbs, tr with
-      | [], 1 :: 0 :: tr' => ok2_ops t cur [] tr'
+      | [], 1 :: 0 :: tr' => ok2_ops t cur [] (live && is_nil acc) hs [] tr'
       | f :: fbs', 1 :: 1 :: tr' =>
           match p_bytes tr' with
-          | Some (m, tr'') => opt_bytes_eqb (propose_msg f false) m && ok2_ops t f fbs' tr''
+          | Some (m, tr'') => opt_bytes_eqb (propose_msg f false) m && ok2_ops t f fbs' (live && is_nil acc) hs [] tr''
           | None => false
           end
       | f :: fbs', 1 :: 2 :: tr' =>
-          match propose_msg f false with None => ok2_ops t f fbs' tr' | Some _ => false end
+          match propose_msg f false with None => ok2_ops t f fbs' false hs [] tr' | Some _ => false end
       | _, _ => false
       end
   end.
@@ -445,12 +526,47 @@ Definition ok2 (p : name) (fs : list name) (ops : list wop) (tr : list N) : bool
   match tr with
   | 0 :: tr' =>
       match p_bytes tr' with
-      | Some (m, tr'') => opt_bytes_eqb (propose_msg p true) m && ok2_ops ops p fs tr''
+      | Some (m, tr'') => opt_bytes_eqb (propose_msg p true) m && ok2_ops ops p fs true false [] tr''
       | None => false
       end
   | [1] => match propose_msg p true with None => true | Some _ => false end
   | _ => false
   end.
+
+(* ---- mode 4: the whole session, judged from GROUND TRUTH (no model function of the dialer or
+   the listener is used): for well-formed names and a grouping that does not put an empty message
+   in front of the header, the trace must be exactly: in every round the listener accepts iff the
+   proposed name is in its list (first position, reply = [header +] confirmation, else [header +]
+   na), every register_response call but the last answers NotReady and the last one answers
+   Succeeded on a confirmation / Rejected on na - for EVERY grouping of the reply's frames -, after
+   a Rejected the next fallback is proposed without header, in order, `none left` at the end.
+   Hence: listener Accepted(name) => the dialer ends with that very name; the lists intersect =>
+   both settle on the dialer's most preferred supported name; NotReady is followed by progress. *)
+Definition reply_frames (first : bool) (v : msg) : list bytes :=
+  (if first then [wpart MHeader] else []) ++ [wpart v].
+Definition verdict_codes (gs : list N) (fr : list bytes) (v : N) : list N :=
+  let k := length (group gs fr) in N.of_nat k :: repeat 0 (k - 1) ++ [v].
+Fixpoint spec4 (ls : list name) (fs : list name) (cur : name) (first : bool) (gss : list (list N))
+               {struct fs} : list N :=
+  match find_idx (name_eqb cur) ls 0 with
+  | Some (i, _) =>
+      let fr := reply_frames first (MProto cur) in
+      [0; i] ++ enc_bytes (concat fr) ++ verdict_codes (hd [] gss) fr 1
+  | None =>
+      let fr := reply_frames first MNa in
+      [1] ++ enc_bytes (concat fr) ++ verdict_codes (hd [] gss) fr 2 ++
+      match fs with
+      | [] => [1; 0]
+      | f :: fs' => [1; 1] ++ enc_bytes (wpart (MProto f)) ++ spec4 ls fs' f false (tl gss)
+      end
+  end.
+Definition clean4 (gss : list (list N)) : bool :=
+  match gss with (k :: _) :: _ => negb (k =? 0) | _ => true end.
+Definition spec4_trace (p : name) (fs ls : list name) (gss : list (list N)) : list N :=
+  [0] ++ enc_bytes (wpart MHeader ++ wpart (MProto p)) ++ spec4 ls fs p true gss.
+Definition ok4 (p : name) (fs ls : list name) (gss : list (list N)) (body : list N) : bool :=
+  if forallb wfw_b (p :: fs) && clean4 gss then list_eqb N.eqb body (spec4_trace p fs ls gss)
+  else true.
 
 (* a lone future may only settle on a name whose confirmation / proposal frame is in its input *)
 Definition ok3 (side lazy : bool) (ns : list name) (input : bytes) (o : obs0) : bool :=
@@ -475,7 +591,6 @@ Definition ok3 (side lazy : bool) (ns : list name) (input : bytes) (o : obs0) : 
      fires before it reads the confirmation), and the side that did succeed receives no byte at
      all (never negotiation bytes as application data), ending on a clean EOF;
    - without a common name both fail. *)
-Definition is_nil (b : bytes) : bool := match b with [] => true | _ => false end.
 
 Definition ok6 (td tl : N) (c : ncase) (o : obs0) : bool :=
   (o_status o =? 0) &&
@@ -696,6 +811,12 @@ Definition prop_ok (case trace : list N) : bool :=
       end
   | 6 :: _ => match trace with [0] => true | _ => false end
   | 8 :: t => Sub.ok_sub t trace
+  | 4 :: t =>
+      match pall p_case4 t, trace with
+      | Some (p, fs, ls, gss), 1 :: tb => ok4 p fs ls gss tb
+      | None, [0] => true
+      | _, _ => false
+      end
   | 7 :: t =>
       match decode7 t, trace with
       | Some c, 1 :: tb => ok7 c tb
